@@ -97,6 +97,12 @@ func KernelHelperMain() int {
 
 			rs.Res = env.Exec(rq.Op)
 
+			if rq.Op.K == "RemoveAll" && rs.Res.Err == "EACCES" && rmrf(rq.Op.P) == nil {
+				// os.RemoveAll opens the PARENT of its operand for reading, which the kernel does not require
+				// for removing a tree (rm -r does without): that refusal is an artefact of the reference, not DAC.
+				rs.Res.Err = "ok"
+			}
+
 			if rq.Uid != 0 || rq.Gid != 0 {
 				setFsIDs(0, 0)
 			}
@@ -136,6 +142,40 @@ func KernelHelperMain() int {
 		_ = enc.Encode(rs)
 		out.Flush()
 	}
+}
+
+// rmrf removes a tree with plain system calls, never opening anything but the directories it empties.
+func rmrf(p string) error {
+	err := syscall.Unlink(p)
+	if err == nil || err == syscall.ENOENT {
+		return nil
+	}
+
+	if err != syscall.EISDIR && err != syscall.EPERM {
+		return err
+	}
+
+	err = syscall.Rmdir(p)
+	if err == nil || err == syscall.ENOENT {
+		return nil
+	}
+
+	if err != syscall.ENOTEMPTY && err != syscall.EEXIST {
+		return err
+	}
+
+	ents, err := os.ReadDir(p)
+	if err != nil {
+		return err
+	}
+
+	for _, e := range ents {
+		if err := rmrf(p + "/" + e.Name()); err != nil {
+			return err
+		}
+	}
+
+	return syscall.Rmdir(p)
 }
 
 func setFsIDs(uid, gid int) {
